@@ -24,9 +24,13 @@ struct PaintHooks : ExecHooks {
 
 struct VgHooks11 : VgHooks {
     VgHooks11() : VgHooks(DEFINED) {}
+    std::vector<bool> garbage_ok;   // per slot: the object may hold arbitrary bytes before its first call
+    size_t next_slot = 0;
     void object(int kind, void *p, size_t n) override {
-        // caller-owned schedules are plain uninitialised structs; handles are documented to be usable when zeroed
-        if (kind_is_sched(kind)) VALGRIND_MAKE_MEM_UNDEFINED(p, n);
+        // caller-owned schedules are plain uninitialised structs; a handle may hold anything before init, but
+        // a handle that is used without init must be zeroed (documented), so those stay defined
+        size_t i = next_slot++;
+        if (kind_is_sched(kind) || (i < garbage_ok.size() && garbage_ok[i])) VALGRIND_MAKE_MEM_UNDEFINED(p, n);
     }
     void step_post(const Op &op, Rec &r, void *obj) override {
         if (!r.img.empty() && VALGRIND_CHECK_MEM_IS_DEFINED(r.img.data(), r.img.size()))
@@ -58,9 +62,26 @@ struct C11 : Harness {
     rc::Gen<Program> gen() override {
         return rc::gen::exec([]() { return gen_union_program(true, 35); });
     }
+    // slots whose first call is a (non-NULL-object) init: their prior content must not matter
+    static std::vector<bool> init_first(const Program &p) {
+        std::vector<bool> r; std::vector<bool> seen;
+        for (auto &op : p) {
+            if (op.name.rfind("new.", 0) == 0) { r.push_back(false); seen.push_back(false); continue; }
+            long long s = op.geti("s", -1);
+            if (s < 0 || (size_t)s >= r.size() || seen[(size_t)s]) continue;
+            seen[(size_t)s] = true;
+            r[(size_t)s] = op.name.size() > 5 && op.name.compare(op.name.size() - 5, 5, ".init") == 0;
+        }
+        return r;
+    }
     static Program with_fill(const Program &p, int fill) {
         Program q = p;
-        for (auto &op : q) if (op.name.rfind("new.", 0) == 0 && kind_is_sched(kind_of(op.name.substr(4)))) op.set("fill", fill);
+        std::vector<bool> g = init_first(p);
+        size_t i = 0;
+        for (auto &op : q) if (op.name.rfind("new.", 0) == 0) {
+            if (kind_is_sched(kind_of(op.name.substr(4))) || g[i]) op.set("fill", fill);
+            ++i;
+        }
         return q;
     }
     std::string run(const Program &p, Stats &st) override {
@@ -69,7 +90,7 @@ struct C11 : Harness {
         uint64_t digest = 0;
         for (int be : bes) {
             if (vg) {
-                VgHooks11 vh;
+                VgHooks11 vh; vh.garbage_ok = init_first(p);
                 ExecOptions eo; eo.hooks = &vh; eo.force_be = be;
                 Exec ex(api, eo);
                 Transcript t = ex.run(p);
